@@ -439,6 +439,48 @@ theorem Inv_fetchRow (cfg : Cfg) (σ σ2 : State) (s : Sid) (o : Obj) (as : List
         simp [hp, hwr]
       · simpa [upd_other _ _ _ _ ho] using hwr
 
+theorem Inv_getAttr (cfg : Cfg) (σ : State) (s : Sid) (o : Obj) (a : Attr) (f : Val → Val) (h : Inv cfg σ) :
+    Inv cfg (getAttr cfg σ s o a f).1 := by
+  unfold getAttr
+  simp only
+  split
+  · exact Inv_failSess cfg σ s h
+  · rename_i v hv
+    refine Inv_withSess cfg σ s _ h ?_ (by rfl)
+    have hs := h.1 s
+    refine ⟨fun o' => ?_, hs.2.1, ?_⟩
+    · by_cases ho : o' = o
+      · subst ho; simpa using ObjInv_read cfg _ a v hv (hs.1 o')
+      · simpa [upd_other _ _ _ _ ho] using hs.1 o'
+    · intro o' b hl
+      have := hs.2.2 o' b hl
+      by_cases ho : o' = o
+      · subst ho
+        simp only [upd_same]
+        unfold ObjSt.read; split <;> simpa using this
+      · simpa [upd_other _ _ _ _ ho] using this
+
+theorem Inv_loadAttr (cfg : Cfg) (s : Sid) (o : Obj) (a : Attr) (f : Val → Val) (σ1 : State) (h : Inv cfg σ1) :
+    Inv cfg (loadAttr cfg s o a f σ1).1 := by
+  unfold loadAttr
+  split
+  · exact Inv_failSess cfg σ1 s h
+  · rename_i σ2 hf
+    exact Inv_getAttr cfg σ2 s o a f (Inv_fetchRow cfg σ1 σ2 s o _ false hf h)
+
+theorem Inv_findInDb (cfg : Cfg) (s : Sid) (o : Obj) (a : Attr) (v : Val) (σ1 : State) (h : Inv cfg σ1) :
+    Inv cfg (findInDb cfg s o a v σ1).1 := by
+  unfold findInDb
+  split
+  · split
+    · exact Inv_failSess cfg σ1 s h
+    · rename_i σ2 hf
+      have h2 := Inv_fetchRow cfg σ1 σ2 s o _ false hf h
+      split
+      · exact Inv_getAttr cfg σ2 s o a _ h2
+      · exact h2
+  · exact h
+
 theorem Inv_step (cfg : Cfg) (σ : State) (s : Sid) (act : Action) (h : Inv cfg σ) : Inv cfg (step cfg σ s act).1 := by
   cases act with
   | get o fu =>
@@ -463,42 +505,16 @@ theorem Inv_step (cfg : Cfg) (σ : State) (s : Sid) (act : Action) (h : Inv cfg 
     split
     · exact h
     · split
-      · rename_i v hv
-        refine Inv_withSess cfg σ s _ h ?_ (by rfl)
-        have hs := h.1 s
-        refine ⟨fun o' => ?_, hs.2.1, ?_⟩
-        · by_cases ho : o' = o
-          · subst ho; simpa using ObjInv_read cfg _ a v hv (hs.1 o')
-          · simpa [upd_other _ _ _ _ ho] using hs.1 o'
-        · intro o' b hl
-          have := hs.2.2 o' b hl
-          by_cases ho : o' = o
-          · subst ho
-            simp only [upd_same]
-            unfold ObjSt.read; split <;> simpa using this
-          · simpa [upd_other _ _ _ _ ho] using this
-      · apply Inv_query cfg _ s false _ _ h
-        intro σ1 h1
-        split
-        · exact Inv_failSess cfg σ1 s h1
-        · rename_i σ2 hf
-          have h2 := Inv_fetchRow cfg σ1 σ2 s o _ false hf h1
-          split
-          · exact Inv_failSess cfg σ2 s h2
-          · rename_i v hv
-            refine Inv_withSess cfg σ2 s _ h2 ?_ (by rfl)
-            have hs := h2.1 s
-            refine ⟨fun o' => ?_, hs.2.1, ?_⟩
-            · by_cases ho : o' = o
-              · subst ho; simpa using ObjInv_read cfg _ a v hv (hs.1 o')
-              · simpa [upd_other _ _ _ _ ho] using hs.1 o'
-            · intro o' b hl
-              have := hs.2.2 o' b hl
-              by_cases ho : o' = o
-              · subst ho
-                simp only [upd_same]
-                unfold ObjSt.read; split <;> simpa using this
-              · simpa [upd_other _ _ _ _ ho] using this
+      · exact Inv_getAttr cfg σ s o a _ h
+      · exact Inv_query cfg _ s false _ (Inv_loadAttr cfg s o a _) h
+  | find o a v =>
+    simp only [step]
+    have hw := Inv_wake cfg σ s h
+    split
+    · split
+      · exact Inv_getAttr cfg _ s o a _ hw
+      · exact Inv_query cfg _ s false _ (Inv_loadAttr cfg s o a _) hw
+    · exact Inv_query cfg _ s false _ (Inv_findInDb cfg s o a v) hw
   | write o a v =>
     simp only [step]
     split
@@ -761,6 +777,48 @@ theorem fetchK_upd (cfg : Cfg) (s : Sid) (o : Obj) (as : List Attr) (fu : Bool) 
       | some σ2 => (σ2, okOut)).2.upd = none := by
   split <;> rfl
 
+theorem getAttr_facts (cfg : Cfg) (σ : State) (s : Sid) (o : Obj) (a : Attr) (f : Val → Val) :
+    (getAttr cfg σ s o a f).2.upd = none ∧ (getAttr cfg σ s o a f).1.store = σ.store
+    ∧ ((getAttr cfg σ s o a f).2.res.failed = true → (getAttr cfg σ s o a f).1.sess s = Sess.fresh cfg s) := by
+  unfold getAttr
+  simp only
+  split
+  · exact ⟨rfl, rfl, fun _ => by simp [failSess]⟩
+  · exact ⟨rfl, rfl, fun h => by simp [Res.failed] at h⟩
+
+theorem fetchRow_store' (σ σ2 : State) (s : Sid) (o : Obj) (as : List Attr) (fu : Bool)
+    (h : fetchRow σ s o as fu = some σ2) : σ2.store = σ.store := by
+  unfold fetchRow at h
+  simp only at h
+  split at h
+  · simp at h
+  · have := Option.some.inj h; subst this; rfl
+
+theorem loadAttr_facts (cfg : Cfg) (s : Sid) (o : Obj) (a : Attr) (f : Val → Val) (σ1 : State) :
+    (loadAttr cfg s o a f σ1).2.upd = none ∧ (loadAttr cfg s o a f σ1).1.store = σ1.store
+    ∧ ((loadAttr cfg s o a f σ1).2.res.failed = true → (loadAttr cfg s o a f σ1).1.sess s = Sess.fresh cfg s) := by
+  unfold loadAttr
+  split
+  · exact ⟨rfl, rfl, fun _ => by simp [failSess]⟩
+  · rename_i σ2 hf
+    have hg := getAttr_facts cfg σ2 s o a f
+    exact ⟨hg.1, hg.2.1.trans (fetchRow_store' σ1 σ2 s o _ false hf), hg.2.2⟩
+
+theorem findInDb_facts (cfg : Cfg) (s : Sid) (o : Obj) (a : Attr) (v : Val) (σ1 : State) :
+    (findInDb cfg s o a v σ1).2.upd = none ∧ (findInDb cfg s o a v σ1).1.store = σ1.store
+    ∧ ((findInDb cfg s o a v σ1).2.res.failed = true → (findInDb cfg s o a v σ1).1.sess s = Sess.fresh cfg s) := by
+  unfold findInDb
+  split
+  · split
+    · exact ⟨rfl, rfl, fun _ => by simp [failSess]⟩
+    · rename_i σ2 hf
+      have hst := fetchRow_store' σ1 σ2 s o _ false hf
+      split
+      · have hg := getAttr_facts cfg σ2 s o a (fun _ => 1)
+        exact ⟨hg.1, hg.2.1.trans hst, hg.2.2⟩
+      · exact ⟨rfl, hst, fun h => by simp [Res.failed] at h⟩
+  · exact ⟨rfl, rfl, fun h => by simp [Res.failed] at h⟩
+
 theorem step_applied (cfg : Cfg) (σ : State) (s : Sid) (act : Action) (o : Obj)
     (h : (step cfg σ s act).2.upd = some o) : (∃ rest, (σ.sess s).toSave = o :: rest) ∧ WhereHeld cfg σ s o := by
   cases act with
@@ -779,12 +837,20 @@ theorem step_applied (cfg : Cfg) (σ : State) (s : Sid) (act : Action) (o : Obj)
     split at h
     · simp at h
     · split at h
-      · simp [okOut] at h
-      · refine query_applied cfg σ s false _ o ?_ h
-        intro σ1
-        split
-        · rfl
-        · split <;> rfl
+      · rw [(getAttr_facts cfg σ s o' a _).1] at h; simp at h
+      · exact query_applied cfg σ s false _ o (fun σ1 => (loadAttr_facts cfg s o' a _ σ1).1) h
+  | find o' a v =>
+    simp only [step] at h
+    have hwk : ∀ k, (∀ σ1, (k σ1).2.upd = none) → (query cfg (wake σ s) s false k).2.upd = some o →
+        (∃ rest, (σ.sess s).toSave = o :: rest) ∧ WhereHeld cfg σ s o := by
+      intro k hk hq
+      have := query_applied cfg (wake σ s) s false k o hk hq
+      exact ⟨by simpa [(wake_sess σ s).2.2.2.1] using this.1, WhereHeld_wake cfg σ s o this.2⟩
+    split at h
+    · split at h
+      · rw [(getAttr_facts cfg _ s o' a _).1] at h; simp at h
+      · exact hwk _ (fun σ1 => (loadAttr_facts cfg s o' a _ σ1).1) h
+    · exact hwk _ (fun σ1 => (findInDb_facts cfg s o' a v σ1).1) h
   | write o' a v =>
     simp only [step] at h
     split at h <;> simp [okOut] at h
@@ -864,16 +930,17 @@ theorem step_store (cfg : Cfg) (σ : State) (s : Sid) (act : Action) :
     split
     · rfl
     · split
-      · rfl
-      · apply query_store
-        intro σ1
-        split
-        · rfl
-        · rename_i σ2 hf
-          have := fetchRow_store σ1 σ2 s o _ false hf
-          split
-          · exact this
-          · exact this
+      · exact (getAttr_facts cfg σ s o a _).2.1
+      · exact query_store cfg σ s false _ (fun σ1 => (loadAttr_facts cfg s o a _ σ1).2.1)
+  | find o a v =>
+    left
+    simp only [step]
+    have hw := (wake_sess σ s).2.2.2.2
+    split
+    · split
+      · exact (getAttr_facts cfg _ s o a _).2.1.trans hw
+      · exact (query_store cfg _ s false _ (fun σ1 => (loadAttr_facts cfg s o a _ σ1).2.1)).trans hw
+    · exact (query_store cfg _ s false _ (fun σ1 => (findInDb_facts cfg s o a v σ1).2.1)).trans hw
   | write o a v =>
     left
     simp only [step]
@@ -952,18 +1019,27 @@ theorem step_failed (cfg : Cfg) (σ : State) (s : Sid) (act : Action) (h : (step
     · rename_i hc
       simp only [hc] at h
       split
-      · rename_i v hv; simp [hv, okOut, Res.failed] at h
+      · rename_i hv
+        simp only [hv, if_true] at h
+        exact (getAttr_facts cfg σ s o a _).2.2 h
       · rename_i hv
         simp only [hv] at h
-        refine query_failed cfg σ s false _ ?_ h
-        intro σ1 h1
-        split
-        · exact failSess_sess cfg σ1 s
-        · rename_i σ2 hf
-          simp only [hf] at h1
-          split
-          · exact failSess_sess cfg σ2 s
-          · rename_i v hv2; simp [hv2, okOut, Res.failed] at h1
+        exact query_failed cfg σ s false _ (fun σ1 => (loadAttr_facts cfg s o a _ σ1).2.2) h
+  | find o a v =>
+    simp only [step] at h ⊢
+    split
+    · rename_i hc
+      simp only [hc, if_true] at h
+      split
+      · rename_i hv
+        simp only [hv, if_true] at h
+        exact (getAttr_facts cfg _ s o a _).2.2 h
+      · rename_i hv
+        simp only [hv] at h
+        exact query_failed cfg _ s false _ (fun σ1 => (loadAttr_facts cfg s o a _ σ1).2.2) h
+    · rename_i hc
+      simp only [hc] at h
+      exact query_failed cfg _ s false _ (fun σ1 => (findInDb_facts cfg s o a v σ1).2.2) h
   | write o a v =>
     simp only [step] at h
     split at h <;> simp [okOut, Res.failed] at h
